@@ -110,6 +110,14 @@ class PredEval:
                     return IntervalSet.cmp(FLIP[op], ca)
         if k == "UnaryOperator" and n.get("op") == "!":
             return ~self.expr(kids(n)[0])
+        if k in ("CallExpr", "CXXMemberCallExpr") and call_args(n) and self.depth < 4:
+            # a one-line predicate over its parameters (e.g. IsCodeInRange(code, first, last)): evaluated on the arguments
+            from ..cfg import _pure_predicate, _subst_params
+            g_ = getattr(self.facts, "_by_id", {}).get(n.get("calleeId"))
+            e_ = _pure_predicate(g_) if g_ is not None else None
+            if e_ is not None and len(call_args(n)) == len(g_.params):
+                binding = {p_["declId"]: strip(a_) for p_, a_ in zip(g_.params, call_args(n))}
+                return self.expr(_subst_params(strip(e_), binding))
         if k == "CXXMemberCallExpr" and not call_args(n):
             name = n.get("callee", "").split("::")[-1]
             if name in REQUIRED and self.depth < 4:
@@ -181,7 +189,8 @@ def run(rep, ctx):
     fn = [PRED_RE, r"mp::FlatBackend::GetSolution", r"mp::MIPBackend::ReportRays", r".*::HandleSolution", r"mp::SolutionAdapter::.*", r"mp::WriteSolFile",
           r"mp::StdBackend::ReportSolution2AMPL", r"mp::StdBackend::SolveCode",
           r"mp::SolveResultRegistry::SolveResultRegistry"]
-    jobs = [dict(unit=u, fn=fn, enum=[r"mp::sol::Status"], repo=repo) for u in vis]
+    jobs = [dict(unit=u, fn=fn, enum=[r"mp::sol::Status"], repo=repo, closure=1,
+                 closure_roots=r"::IsProblem[A-Za-z]*$") for u in vis]
     jobs.append(dict(unit="src/solver.cc", fn=fn, enum=[r"mp::sol::Status"], repo=repo))
     if ctx["tier"] == "thorough":
         for u, k in units.UNITS.items():
@@ -365,25 +374,73 @@ def run(rep, ctx):
                      "write of %r is control-dependent on IsProblemSolvedOrFeasible()" % lit,
                      "write of %r is NOT dominated by the true edge of "
                      "IsProblemSolvedOrFeasible()" % lit)
-        # converse: candidate indicated and objective values exist => text written
-        sizes = [b for b in cfg.blocks.values() if b.get("cond", -1) >= 0]
-        done = False
-        for b in sizes:
-            c = strip(f.nodes[b["cond"]])
-            if c["k"] == "CXXMemberCallExpr" and c.get("callee", "").endswith("::size") \
-                    and "objvals" in render(c) and f.nodes[b["term"]]["k"] == "IfStmt":
-                g1.check(guarded(f.nodes[b["cond"]]), "values-test-under-guard", short_loc(c.get("l")),
-                         "`if (sol.objvals.size())` is control-dependent on IsProblemSolvedOrFeasible()")
-                t = cfg.succ[b["id"]][0]
-                w = cfg.path_avoiding((t, -1), "exit",
-                                      [n["i"] for n, lit in objw if "objective" in lit])
-                g1.check(w is None, "always-when-values", short_loc(c.get("l")),
-                         "every path from `if (sol.objvals.size())` true edge to the exit "
-                         "writes an objective text", "path avoiding every objective write: blocks %s" % w)
-                done = True
-                break
-        if not done:
-            raise AnalysisBroken("C10.G1: `if (sol.objvals.size())` not found")
+        # converse: candidate indicated and objective values exist => text written.  Shape-free: the guarded block is
+        # explored for n = 1, 2, 3 objective values (tests on objvals.size()/empty() evaluated, every other condition forked)
+        def size_cond(c, n):
+            c = strip(c)
+            if c is None:
+                return None
+            if c["k"] == "UnaryOperator" and c.get("op") == "!":
+                v = size_cond(kids(c)[0], n)
+                return None if v is None else (not v)
+            if c["k"] == "CXXMemberCallExpr" and "objvals" in render(c):
+                nm_ = (c.get("callee") or "").split("::")[-1]
+                if nm_ == "size":
+                    return n != 0
+                if nm_ == "empty":
+                    return n == 0
+            if c["k"] == "BinaryOperator" and c.get("op") in ("<", "<=", ">", ">=", "==", "!="):
+                a_, b_ = strip(kids(c)[0]), strip(kids(c)[1])
+                def sz(x):
+                    return x["k"] == "CXXMemberCallExpr" and (x.get("callee") or "").endswith("::size") and "objvals" in render(x)
+                va = n if sz(a_) else cv(a_)
+                vb = n if sz(b_) else cv(b_)
+                if (sz(a_) or sz(b_)) and va is not None and vb is not None:
+                    return {"<": va < vb, "<=": va <= vb, ">": va > vb, ">=": va >= vb, "==": va == vb, "!=": va != vb}[c["op"]]
+            if c["k"] == "BinaryOperator" and c.get("op") in ("&&", "||"):
+                x_, y_ = size_cond(kids(c)[0], n), size_cond(kids(c)[1], n)
+                if x_ is None or y_ is None:
+                    return None
+                return (x_ and y_) if c["op"] == "&&" else (x_ or y_)
+            return None
+
+        def explore(stmts, n, wrote):
+            """list of `wrote an objective text` flags, one per path through stmts"""
+            if not stmts:
+                return [wrote]
+            s0, rest = stmts[0], stmts[1:]
+            if s0 is None:
+                return explore(rest, n, wrote)
+            k0 = s0["k"]
+            if k0 == "CompoundStmt":
+                return explore(list(kids(s0)) + rest, n, wrote)
+            if k0 == "IfStmt":
+                ch_ = [x for x in s0["c"] if x is not None]
+                v = size_cond(ch_[0], n)
+                out_ = []
+                if v is None or v:
+                    out_ += explore([ch_[1]] + rest, n, wrote)
+                if v is None or not v:
+                    out_ += explore(([ch_[2]] if len(ch_) > 2 else []) + rest, n, wrote)
+                return out_
+            if k0 in ("ForStmt", "WhileStmt", "CXXForRangeStmt", "DoStmt"):
+                return explore(rest, n, wrote)           # loop bodies add lines, they never replace the headline
+            w_ = wrote or any(x["i"] in {n_["i"] for n_, lit_ in objw if "objective" in lit_} for x in walk(s0))
+            return explore(rest, n, w_)
+        gif = [x for x in f.walk() if x["k"] == "IfStmt" and any(y["i"] in guard_conds for y in walk(kids(x)[0]))]
+        if not gif:
+            raise AnalysisBroken("C10.G1: the IsProblemSolvedOrFeasible() test was not found")
+        tests = [x for x in f.walk() if x["k"] == "IfStmt" and "objvals" in render(kids(x)[0])]
+        g1.check(bool(tests) and all(guarded(kids(x)[0]) or guarded(x) for x in tests), "values-test-under-guard", short_loc(gif[0].get("l")),
+                 "the tests on the number of objective values are control-dependent on IsProblemSolvedOrFeasible()")
+        missing = []
+        for n_obj in (1, 2, 3):
+            flags = explore([[x for x in gif[0]["c"] if x is not None][1]], n_obj, False)
+            if not flags or not all(flags):
+                missing.append(n_obj)
+        g1.check(not missing, "always-when-values", short_loc(gif[0].get("l")),
+                 "with 1, 2 or 3 objective values every path through the guarded block writes an objective text",
+                 "with %s objective value(s) a path through the guarded block writes no objective text" % missing)
 
     # ---- F1 -------------------------------------------------------------
     f1 = rep.rule("C10.F1", "FLOW",
